@@ -1195,6 +1195,13 @@ impl<T: Transport, Env: UtpEnvironment> VirtualSocket<T, Env> {
                 .user_tx_segments
                 .remove_up_to_ack(self.this_poll.now, &msg.header),
         };
+        // Whatever is acknowledged was sent: an RTO rewinds last_sent_seq_nr, and if the ACK for
+        // everything arrives afterwards nothing is left to resend that would move it forward again
+        // (the FIN would wait forever for "all outstanding data to be sent").
+        let last_acked = self.user_tx_segments.snd_una() - 1;
+        if self.last_sent_seq_nr < last_acked {
+            self.last_sent_seq_nr = last_acked;
+        }
         self.segment_sizes
             .on_payload_delivered(result.on_ack_result.max_acked_payload_size);
         self.congestion_controller
